@@ -1130,9 +1130,10 @@ def check_C05(ctx):
     run_kv_walk(ctx, "spabort", tiered(ctx, 30, 300), tiered(ctx, 500, 1200), page_sizes="512,1024", caches="1048576,0")
     k = ctx.notes.get("event_kinds", {})
     ctx.cov["distinct_nontrivial"] += k.get("abort", 0) + k.get("acct", 0)
-    if k.get("abort", 0) < 50:
-        raise ToolError(f"vacuity: too few abandoned transactions: {k}")
-    ctx.assumptions += ["operations failing part-way (I/O error inside rename/delete/restore, panicking predicates) are covered by C08's fault "
+    if k.get("abort", 0) < 50 or k.get("predpanic", 0) < 8:
+        raise ToolError(f"vacuity: too few abandoned transactions / panicking predicates: {k}")
+    ctx.assumptions += ["panicking predicates are injected here (retain / extract_if predicates that panic after 0-4 calls: the transaction must "
+                        "refuse to commit and leave no trace); operations failing part-way with an I/O error (inside rename/delete/restore) are covered by C08's fault "
                         "enumeration, not here"]
     return dict(level="model_checking", exhaustive=True,
                 rule="design: Pager.tla action property AbortRestores (alloc after abort = alloc at begin) and Kv.tla (Abort changes nothing "
